@@ -112,6 +112,19 @@ package jsonschema
 //@   pure
 //@   ensures[C08,C01] def: result == (kind(v) == 24 && !isJsonNumber(v))
 
+// fieldJSONInfo against encoding/json's tag rules: unexported or tag "-" => omitted; the name is the part
+// before the first comma if non-empty, else the Go field name; the options are the comma-separated rest.
+//@ contract fieldJSONInfo(f)
+//@   pure
+//@   let tag = tagGet(f.Tag, "json")
+//@   let tagged = tagHas(f.Tag, "json")
+//@   ensures[C04,C09] omit: result.omit <==> (!sfExported(f.Name, f.PkgPath) || (tagged && tag == "-"))
+//@   ensures[C04,C09] name: !result.omit ==> result.name == ite(tagged && cutBefore(tag, ",") != "", cutBefore(tag, ","), f.Name)
+//@   ensures[C04,C09] noopts: !result.omit && !(tagged && len(cutAfter(tag, ",")) > 0) ==> result.settings == nil
+//@   ensures[C04,C09] opts: !result.omit && tagged && len(cutAfter(tag, ",")) > 0 ==> result.settings != nil && new(result.settings) && (forall k string {has(result.settings, k)} :: has(result.settings, k) <==> (exists i int :: 0 <= i && i < splitN(cutAfter(tag, ","), ",") && splitAt(cutAfter(tag, ","), ",", i) == k))
+//@   loop "range strings.Split(rest, ",")"
+//@     invariant[C04,C09] acc: $idx < splitN(rest, ",") && info.settings != nil && new(info.settings) && (forall k string {has(info.settings, k)} :: has(info.settings, k) <==> (exists i int :: 0 <= i && i <= $idx && splitAt(rest, ",", i) == k))
+
 //@ contract hashValue(h, v)
 //@   requires new(h) && shaped(v)
 
